@@ -89,7 +89,7 @@ func genWithSlotEpisode(t *rapid.T) vh.ShimCase {
 }
 
 func TestC10Shim(t *testing.T) {
-	vh.Run(t, vh.Spec[vh.ShimCase]{Property: "C10", Name: "TestC10Shim", Rule: rule,
+	vh.Run(t, vh.Spec[vh.ShimCase]{Property: "C10", Name: "TestC10Shim", Rule: rule + vh.ShimGenNote,
 		Gen: genWithSlotEpisode, Exec: exec})
 }
 
